@@ -9,7 +9,7 @@ import ast
 import z3
 
 from . import spec as S
-from .spec import Opt, BoolV, RealV, SliceV, SeqV, TupV, MapV, StrV, NanV, ObjV, AbsV, SliceSeqV, SortedItemsV, TupSeqV
+from .spec import Opt, BoolV, RealV, SliceV, SeqV, TupV, MapV, StrV, NanV, ObjV, AbsV, SliceSeqV, SortedItemsV, TupSeqV, RowsV
 from . import engine as E
 
 I = E.I
@@ -130,7 +130,7 @@ def call(ex, node, name, st):
             return I(S.f_len(v.t))
         if isinstance(v, TupV):
             return I(len(v.items))
-        if isinstance(v, (SliceSeqV, TupSeqV)):
+        if isinstance(v, (SliceSeqV, TupSeqV, RowsV)):
             return I(v.n)
         if isinstance(v, tuple) and v and v[0] == "range":
             return I(S.rlen(v[1], v[2], v[3]))
